@@ -578,6 +578,7 @@ func (r *run) runStream() {
 			boundaryAt = t.Draw(core.Gen, hp.nBatches)
 		}
 	}
+	auxCalls := t.Chance(core.Ext, 1, 3)
 	for i := 0; i < hp.nBatches; i++ {
 		r.batch = i
 		var b *batchIn
@@ -594,6 +595,18 @@ func (r *run) runStream() {
 			b = fatBatch(1000, 2048, i)
 		} else {
 			b = r.genBatch(hp, i)
+		}
+		if auxCalls {
+			// auxiliary public calls between two batches: reading (and resetting) statistics is
+			// not supposed to be an event of the stream
+			if t.Chance(core.Ext, 1, 3) {
+				_ = producer.GetAndResetStats()
+				r.probe("aux_get_and_reset_stats_between_batches")
+			}
+			if t.Chance(core.Ext, 1, 8) {
+				_ = producer.RecordSizeStats()
+				r.probe("aux_record_size_stats_between_batches")
+			}
 		}
 		var want []Item
 		if roundtrip {
